@@ -120,7 +120,7 @@ class PathConverter(BaseConverter):
     """
 
     part_isolating = False
-    regex = "[^/].*?"
+    regex = "[^/](?s:.*?)"
     weight = 200
 
 
